@@ -568,7 +568,8 @@ func (mw *msgWriter) writeBody(writeFunc func(io.Writer) (int64, error), encodin
 		encodedWriter = quotedprintable.NewWriter(&writeBuffer)
 	case EncodingB64:
 		encodedWriter = base64.NewEncoder(base64.StdEncoding, &lineBreaker)
-	case NoEncoding:
+	case NoEncoding, EncodingUSASCII:
+		// 7bit and 8bit content is written as it is
 		_, err = writeFunc(&writeBuffer)
 		if err != nil {
 			mw.err = fmt.Errorf("bodyWriter function: %w", err)
@@ -582,7 +583,7 @@ func (mw *msgWriter) writeBody(writeFunc func(io.Writer) (int64, error), encodin
 		}
 		return
 	default:
-		encodedWriter = quotedprintable.NewWriter(writer)
+		encodedWriter = quotedprintable.NewWriter(&writeBuffer)
 	}
 
 	_, err = writeFunc(encodedWriter)
